@@ -17,14 +17,17 @@ PROP = "C18"
 def check_file(ctl, name, content, F, st):
     P = ctl.P
     stale = pc.stale_for(name, content, P)
-    ctl.put(content, stale)
+    closed, link = pc.variant_for(name)
+    ctl.put(content, stale, link)
+    st["closed_fds"] = st.get("closed_fds", 0) + (closed is not None)
+    st["symlinked"] = st.get("symlinked", 0) + (link is not None and content is not None)
     st["stale_tmp"] = st.get("stale_tmp", 0) + (stale is not None)
-    rc1, out1, err1 = ctl.run("enable")
+    rc1, out1, err1 = ctl.run("enable", closed)
     new1 = ctl.get()
     st["runs"] += 1
     acc = pc.enable_expected(content, P)
     cls = "zero" if rc1 == 0 else "nonzero"
-    wit = dict(file=name, stale_tmp=None if stale is None else stale.decode("latin-1"), content=None if content is None else content.decode("latin-1"), rc=rc1,
+    wit = dict(file=name, started_without_fds=closed, symlink=link, stale_tmp=None if stale is None else stale.decode("latin-1"), content=None if content is None else content.decode("latin-1"), rc=rc1,
                result=None if new1 is None else new1.decode("latin-1"), stderr=err1.decode("latin-1")[-300:])
     ok = any((new1 == a or (a is None and new1 in (None, b""))) and cls == c for a, c in acc)
     if not ok:
